@@ -391,6 +391,8 @@ type ValidateOpts struct {
 	// NamesDistinct: the source names of every directory are distinct after mapping (clause 15 applies)
 	NamesDistinct bool
 	MaxPTDirs     int // documented path table limit (65536); 0 = no limit
+	// SkipGaps: do not demand zeros in sectors no structure claims (third-party writers put their own data there)
+	SkipGaps bool
 }
 
 // Validate checks the C08 clauses and returns all problems found (including those of Parse).
@@ -680,7 +682,7 @@ func (v *Vol) validateExtents(o ValidateOpts) {
 		}
 	}
 	for _, s := range spans {
-		if s.lo > last {
+		if s.lo > last && !o.SkipGaps {
 			zeroRange(last, s.lo, "unused (gap)")
 		}
 		if s.hi > last {
